@@ -12,6 +12,7 @@ from engine.th import TH
 from spec.seq import N, Seq, select, lt, le, nmod
 
 PROPERTY = "C14"
+HISTORY_LEMMAS = ['queue_history', 'clear_empties', 'read_first_same', 'idle_keeps']  # lemmas/History.lean: one-cycle contracts => history-level statement (Lean 4)
 LEVEL = "proof"
 ASSUMPTIONS = [
     "configurations swept: depth and payload layout as listed in coverage.configuration_list (bounded in the Python-level parameters, unbounded in inputs and history length)",
